@@ -94,6 +94,7 @@ type runner struct {
 	recovering    bool
 	stopObservers bool
 	rotted        bool
+	measures      []int
 }
 
 func (r *runner) probe(name string) {
@@ -1130,6 +1131,19 @@ func (r *runner) execOp(op *Op, tx *txCtx) {
 		}
 	case "heal":
 		r.disk.Healed = true
+	case "measure":
+		// C07 "space is given back": table bytes after round K of
+		// overwrite-everything + full compaction vs. after round 1
+		r.settleCheck()
+		n := r.disk.TotalBytes(storage.TypeTable)
+		r.measures = append(r.measures, n)
+		r.probe("space-measure")
+		if len(r.measures) >= 2 && op.Slot == op.Ms {
+			first, last := r.measures[0], n
+			if last > 2*first+4096 {
+				r.viol("space", "space:accumulates", fmt.Sprintf("table bytes after %d rounds of overwriting every key and compacting the whole range: %d, after the first round: %d - overwritten data is not given back", len(r.measures), last, first))
+			}
+		}
 	case "rot":
 		// bit rot at rest: close cleanly, alter bytes inside table data
 		// blocks, reopen. From here on a read may fail (checksums are on by
